@@ -30,6 +30,8 @@ def specs_for(ctx):
         dict(D=2, target="plateau", box="sym", noise="det", options=dict(max_fun_evals=70, stobads=True), seed=ctx.seed * 10 + 11),
         # a target whose values are tiny in ABSOLUTE terms: any strictly lower value is an improvement
         dict(D=2, target="sphere", box="sym", noise="det", scale=1e-21, options=dict(max_fun_evals=70), seed=ctx.seed * 10 + 13),
+        dict(D=3, target="ellipsoid", box="sym", noise="det", scale=1e-21, options=dict(max_fun_evals=70), seed=ctx.seed * 10 + 14),
+        dict(D=2, target="sphere", box="sym", noise="det", scale=1e-21, options=dict(max_fun_evals=70), seed=ctx.seed * 10 + 5),
         # uncertainty_handling=False given explicitly
         dict(D=2, target="rosen", box="sym", noise="det", options=dict(max_fun_evals=70, uncertainty_handling=False), seed=ctx.seed * 10 + 12),
         # budgets that end the run right after the initial design / in the first iterations
